@@ -98,6 +98,15 @@ impl Encoder<Frame> for FrameCodec {
     fn encode(&mut self, item: Frame, dst: &mut BytesMut) -> Result<(), Self::Error> {
         let data_len = item.data.len();
 
+        // The length field is a u16: a longer payload cannot be represented and
+        // must not be written with a truncated length.
+        if data_len > u16::MAX as usize {
+            return Err(io::Error::new(
+                io::ErrorKind::InvalidInput,
+                format!("frame payload too large: {} bytes (max 65535)", data_len),
+            ));
+        }
+
         // Reserve space: header + data
         dst.reserve(HEADER_OVERHEAD_SIZE + data_len);
 
